@@ -142,6 +142,10 @@ def _compile_objs(cc, cflags, outdir, mainflag):
 
 def get(variant):
     """Return the path of the executable for `variant`, building it if needed."""
+    if variant == 'stage2':
+        return stage2()[0]
+    if variant == 'fs-stage2':
+        return stage2()[1]
     cc, cflags, ldflags, isfs = VARIANTS[variant]
     d = os.path.join(root(), variant)
     exe = os.path.join(d, 'forksrv' if isfs else 'cproc-qbe')
@@ -193,9 +197,6 @@ def touch():
     os.utime(root())
 
 
-if __name__ == '__main__':
-    for v in sys.argv[1:] or ['plain', 'fs']:
-        print(get(v))
 
 
 def harness(name, hsrcs, reposrcs, cflags=('-O2', '-g', '-w'), libs=('-lm',), cc='gcc'):
@@ -260,3 +261,73 @@ def driver(triple, real=False):
             run(['gcc', '-O1', '-g', '-Wall', '-o', exe + '.tmp', world, os.path.join(d, 'driver.o'), os.path.join(d, 'util.c')])
         os.rename(exe + '.tmp', exe)
     return exe
+
+
+def stage2(forkserver=True):
+    """Stage 2: every compiler source preprocessed by cpp, compiled by the stage-1 cproc-qbe of the working
+    tree, translated by il2c and compiled by gcc; linked as `cproc-qbe` and (main.c built with
+    -Dmain=cproc_main) as a fork-server.  Returns (cproc-qbe path, forksrv path)."""
+    try:
+        from . import il2c, ilexec
+    except ImportError:
+        sys.path.insert(0, VERIF)
+        from vlib import il2c, ilexec
+    d = os.path.join(root(), 'stage2')
+    exe = os.path.join(d, 'cproc-qbe')
+    fsx = os.path.join(d, 'forksrv')
+    il2c_src = os.path.join(VERIF, 'vlib', 'il2c.py')
+    fresh = lambda p: os.path.exists(p) and os.path.getmtime(p) >= os.path.getmtime(il2c_src)
+    if fresh(exe) and fresh(fsx):
+        return exe, fsx
+    with _lock('stage2'):
+        if fresh(exe) and fresh(fsx):
+            return exe, fsx
+        os.makedirs(d, exist_ok=True)
+        s1 = get('plain')
+        sd = srcdir()
+        ils = {}
+        for variant, defs in (('', []), ('fsmain', ['-Dmain=cproc_main'])):
+            for n in compiler_srcs():
+                if variant and n != 'main.c':
+                    continue
+                p = subprocess.run(['cpp'] + ilexec.CPP_FLAGS + defs + [os.path.join(sd, n)], stdout=subprocess.PIPE, stderr=subprocess.PIPE)
+                if p.returncode != 0:
+                    raise BuildError('cpp failed on %s: %s' % (n, p.stderr.decode(errors='replace')[-500:]))
+                q = subprocess.run([s1], input=p.stdout, stdout=subprocess.PIPE, stderr=subprocess.PIPE)
+                if q.returncode != 0:
+                    raise BuildError('stage 1 cannot compile %s: %s' % (n, q.stderr.decode(errors='replace')[-500:]))
+                ils[(variant, n)] = q.stdout
+        defined = set()
+        for il in ils.values():
+            for name, kind, exp in il2c.defined_symbols(il):
+                if exp:
+                    defined.add(name)
+        same = {n: n for n in defined}
+        procs = []
+        objs = {'': [], 'fsmain': []}
+        for (variant, n), il in ils.items():
+            c = il2c.translate(il, prefix='s2l_', export_map=same, extern_map=same)
+            cfile = os.path.join(d, '%s%s.il.c' % (variant, n[:-2]))
+            with open(cfile, 'w') as f:
+                f.write(c)
+            o = cfile[:-2] + '.o'
+            procs.append((n, subprocess.Popen(['gcc', '-O1', '-w', '-c', '-o', o, cfile], stdout=subprocess.PIPE, stderr=subprocess.STDOUT)))
+            if n == 'main.c':
+                objs[variant].append(o)
+            else:
+                objs[''].append(o)
+                objs['fsmain'].append(o)
+        for n, p in procs:
+            out, _ = p.communicate()
+            if p.returncode != 0:
+                raise BuildError('gcc failed on the il2c output of %s:\n%s' % (n, out.decode(errors='replace')[-3000:]))
+        run(['gcc', '-o', exe + '.tmp'] + objs[''])
+        os.rename(exe + '.tmp', exe)
+        run(['gcc', '-O1', '-w', '-I', sd, '-o', fsx + '.tmp', os.path.join(HARNESS, 'forksrv.c')] + objs['fsmain'])
+        os.rename(fsx + '.tmp', fsx)
+    return exe, fsx
+
+
+if __name__ == '__main__':
+    for v in sys.argv[1:] or ['plain', 'fs']:
+        print(get(v))
